@@ -246,6 +246,25 @@ def run_segment(seg):
                     call = lambda: dds.keep(ent["path"], fobj, *args, **kwargs)
                 else:
                     raise ValueError(style)
+            if ent.get("in_thread"):
+                # the evaluation happens in a worker thread of this process (its value / exception is handed back)
+                import threading
+
+                inner, box = call, {}
+
+                def runner():
+                    try:
+                        box["v"] = inner()
+                    except BaseException as e:
+                        box["e"] = e
+
+                def call():
+                    t = threading.Thread(target=runner)
+                    t.start()
+                    t.join()
+                    if "e" in box:
+                        raise box["e"]
+                    return box["v"]
             so["result"] = _outcome(call, dds_exc)
         so["log"] = vlog.snapshot()
         if mode == "impl":
